@@ -35,6 +35,15 @@ def load_known_params():
         return json.load(fh)
 
 
+def load_known_json(name):
+    import json
+    path = os.path.join(HERE, name)
+    if not os.path.isfile(path):
+        return None
+    with open(path) as fh:
+        return json.load(fh)
+
+
 def load_known_sigs():
     import json
     path = os.path.join(HERE, "known_sigs.json")
